@@ -195,6 +195,10 @@ def encode(v):
         return float(v)
     if isinstance(v, (np.bool_,)):
         return bool(v)
+    if type(v).__name__ == "Chunk" and type(v).__module__.startswith("strax"):
+        return {"__chunk__": {"start": int(v.start), "end": int(v.end), "data": encode(v.data), "data_type": v.data_type,
+                              "data_kind": v.data_kind, "run_id": v.run_id, "subruns": encode(v.subruns), "superrun": encode(v.superrun),
+                              "target_size_mb": v.target_size_mb}}
     return v
 
 
@@ -209,6 +213,12 @@ def _enc_scalar(x):
 
 
 def decode(v):
+    if isinstance(v, dict) and "__chunk__" in v:
+        import strax
+        c = v["__chunk__"]
+        data = decode(c["data"])
+        return strax.Chunk(start=c["start"], end=c["end"], data=data, dtype=data.dtype, data_type=c["data_type"], data_kind=c["data_kind"],
+                           run_id=c["run_id"], subruns=decode(c["subruns"]), superrun=decode(c["superrun"]), target_size_mb=c["target_size_mb"])
     if isinstance(v, dict):
         if "__rows__" in v:
             dt = np.dtype([(n, d) if isinstance(d, str) else (n, d[0], tuple(d[1])) for n, d in v["dtype"]])
